@@ -718,6 +718,10 @@ def check(prop, tier, seed):
         kf = os.path.join(CACHE, 'kani_%s_%s.json' % (prop, hk.hexdigest()[:16]))
         if os.path.exists(kf):
             kani = json.load(open(kf))
+        elif violations:
+            # Verus has already established a violation of this property on this tree: the (slow) harnesses add nothing
+            kani = [{'harness': h, 'status': 'skipped', 'detail': 'not run: Verus reports a violation of this property on this tree', 'wall_s': 0, 'cmd': '', 'what': w, 'checks': None}
+                    for h, _, w in vpkani.HARNESSES[prop]]
         else:
             kani = vpkani.run(prop)
             json.dump(kani, open(kf, 'w'))
